@@ -223,22 +223,14 @@ func ruleSingleLoopNesting(r *Run) {
 	if mgr == nil {
 		return
 	}
-	for _, e := range r.P.CG.Out[mgr] {
-		if fnName(e.Callee) != "executor.(*DepthExecutor).Execute" {
-			continue
-		}
-		depth := 0
-		seen := map[*ssa.BasicBlock]bool{}
-		for _, h := range mgr.Blocks {
-			l := naturalLoop(h)
-			if len(l) > 0 && l[e.Site.Block()] && !seen[h] {
-				seen[h] = true
-				depth++
-			}
-		}
-		r.Check(depth == 1, rule, fnName(mgr), "DepthExecutor.Execute loop nesting", r.P.pos(e.Site.Pos()),
+	// the call may sit in a helper of the manager (the loop body moved out): the loops around
+	// the call sites on the way are added up
+	passes := depthPassSites(r, mgr)
+	for _, ps := range passes {
+		r.Check(ps.nest == 1, rule, fnName(mgr), "DepthExecutor.Execute loop nesting", r.P.pos(ps.edge.Site.Pos()),
 			"called in the depth loop only", "DepthExecutor.Execute is called inside a loop nested in the depth loop (passes/chunks of one level): each pass groups by service and calls Queryer.Query itself, so one level produces several batched calls per service and de-duplication no longer spans the level")
 	}
+	r.AtLeast(rule, "calls of DepthExecutor.Execute under the manager", len(passes), 1)
 }
 
 // ruleGatewayState (R3b): request code neither stores to nor calls pointer-receiver methods
